@@ -844,7 +844,34 @@ func checkReset(c *core.Ctx) {
 		}
 		c.Check(bad == "", core.FuncKey(fn)+"#reset", p.Pos(fn.Pos()), "Reset only re-points the builder", bad)
 	}
-
+	// bindnode's builders hold their storage as a reflect.Value - a handle to the very memory the built node reads.
+	// Writing through that handle (Value.Set and friends) is the reflect spelling of a write through a pointer loaded
+	// from the builder; re-pointing the builder is a store of a fresh reflect.Value into its field.
+	for _, im := range p.Implementers(nbIface, func(rel string) bool { return rel == "node/bindnode" }) {
+		fn := p.Method(im.Type(), "Reset")
+		if fn == nil || len(fn.Blocks) == 0 || len(fn.Params) == 0 {
+			continue
+		}
+		bad := ""
+		for _, g := range append([]*ssa.Function{fn}, staticCalleesIn(fn, 2)...) {
+			if len(g.Params) == 0 {
+				continue
+			}
+			for _, ci := range core.Calls(g) {
+				cal := ci.Common().StaticCallee()
+				if cal == nil || cal.Pkg == nil || cal.Pkg.Pkg.Path() != "reflect" || cal.Signature.Recv() == nil || !strings.HasPrefix(cal.Name(), "Set") {
+					continue
+				}
+				if nt := namedOfType(cal.Signature.Recv().Type()); nt == nil || nt.Obj().Name() != "Value" {
+					continue
+				}
+				if builderHandle(ci.Common().Args[0], g.Params[0], 0) {
+					bad = fmt.Sprintf("%s calls reflect.Value.%s on a value held by the builder: the storage of the node built so far is overwritten in place", core.FuncKey(g), cal.Name())
+				}
+			}
+		}
+		c.Check(bad == "", core.FuncKey(fn)+"#reset", p.Pos(fn.Pos()), "Reset does not write through the builder's reflect handle", bad)
+	}
 }
 
 const decoderBytesText = "the byte slices (and strings) that the bundled decoders hand to AssignBytes never come out of storage that is kept and reused: the value does not derive from a sync.Pool, a package-level variable or a captured buffer (basicnode keeps the slice without copying, so a recycled buffer would change a finished node); and the reader the link system hands to a decoder is not such recycled storage either (a decoder may keep the bytes of a reader that exposes them: codec/raw does)"
@@ -911,4 +938,54 @@ func checkDecoderBytes(c *core.Ctx) {
 	if nd == 0 {
 		c.Undecided("linking#decoder-call", "-", "no call of a codec.Decoder value found in package linking")
 	}
+}
+
+// builderHandle: v is a reflect.Value read out of the builder recv (a field, at any depth), or a handle to part of
+// the same storage derived from one (Elem, Field, Index ...). A value made by reflect.New / reflect.Zero from the
+// builder's type is fresh and is not one.
+func builderHandle(v ssa.Value, recv ssa.Value, depth int) bool {
+	if depth > 8 {
+		return false
+	}
+	switch x := core.Strip(v).(type) {
+	case *ssa.UnOp:
+		if x.Op != token.MUL {
+			return false
+		}
+		a := x.X
+		for {
+			if fa, ok := a.(*ssa.FieldAddr); ok {
+				a = fa.X
+				continue
+			}
+			break
+		}
+		if a == recv {
+			return true
+		}
+		if al, ok := a.(*ssa.Alloc); ok {
+			// a local copy of the handle
+			for _, r := range *al.Referrers() {
+				if st, ok := r.(*ssa.Store); ok && st.Addr == ssa.Value(al) && builderHandle(st.Val, recv, depth+1) {
+					return true
+				}
+			}
+		}
+	case *ssa.Phi:
+		for _, e := range x.Edges {
+			if builderHandle(e, recv, depth+1) {
+				return true
+			}
+		}
+	case *ssa.Call:
+		cal := x.Call.StaticCallee()
+		if cal == nil || cal.Pkg == nil || cal.Pkg.Pkg.Path() != "reflect" || cal.Signature.Recv() == nil || len(x.Call.Args) == 0 {
+			return false
+		}
+		switch cal.Name() {
+		case "Elem", "Field", "FieldByIndex", "FieldByName", "Index", "Addr", "Slice", "Slice3", "MapIndex":
+			return builderHandle(x.Call.Args[0], recv, depth+1)
+		}
+	}
+	return false
 }
